@@ -145,7 +145,7 @@ CLAIMED = {
    design="6/C08", technique="Coq state-and-fault monad over an explicit heap, list-segment reasoning, mutual induction for unref/destroy; sanitizer-backed correspondence (model faults/leaks iff ASan/LSan reports), fork per case"),
  "C01": dict(
    text="Machine-checked proof (Coq 8.16, no axioms) over the model of src/window.c on the PROVED rectangle-set model of C05 (RectSetDefs.v), an abstract per-cell render buffer and a terminal with an ARBITRARY scroll oracle (accept / partially accept / refuse): do_expose paints exactly the painter's-model composition for any tree (C01_do_expose_paints); a flush - with any pending restack queue, and with expose handlers that RE-ENTER the API (show/hide/expose/restack, close or destroy of any window incl. their own) - re-establishes 'every cell shows the composition or lies in the damage' with the flags consistent (C01_flush, C01_reentrant_flush, C01_reentrant_flags); every operation of the alphabet new/close/show/hide/queued+applied restacks/geometry changes with their exposes/expose/focus/cursor setters/terminal resize/scroll/scrollrect/scroll_with_children preserves the invariant (C01_preserved_all, C01_scroll*, C01_damage_inv), hence by induction EVERY history with flushes at arbitrary points ends with every cell equal to the composition (C01_history, C01_history_flushed). Tie: three-way correspondence (C vs model vs extracted `compose` oracle) over exhaustive <=3-op histories on 6 base trees x 3 terminals + random histories with 5 scroll policies and re-entrant handlers, on the mock terminal and a harness grid terminal.",
-   note="Holds for the repaired code (fix: e6c2760, e28fb20, a53c937, 9e11279); pinned behaviour refuted by C01_refuted_18. Side conditions: visible windows have non-empty rectangles (scrolls); ids unique over the forest (an invariant of the history model, C01_forest_unique_*); handlers repaint what they are asked and the application exposes old and new areas after a geometry change (the property's provisos). Trusted: Coq kernel; hand-written model tied by differential testing; the abstract render buffer/terminal (exact for single-width content and line cells); extraction.",
+   note="Holds for the repaired code (fix: e6c2760, e28fb20, fe47d4e, 2843ffd); pinned behaviour refuted by C01_refuted_18. Side conditions: visible windows have non-empty rectangles (scrolls); ids unique over the forest (an invariant of the history model, C01_forest_unique_*); handlers repaint what they are asked and the application exposes old and new areas after a geometry change (the property's provisos). Trusted: Coq kernel; hand-written model tied by differential testing; the abstract render buffer/terminal (exact for single-width content and line cells); extraction.",
    design="6/C01-C02", technique="Coq invariant proof (ScreenInv) by induction over operation histories, tree induction for do_expose; extracted compose as oracle; differential check on mock and harness grid terminals"),
  "C02": dict(
    text="Machine-checked proof (Coq 8.16, no axioms) over the model of window.c's expose/flush on an abstract per-cell render buffer: for ALL window trees, damage lists and ALL drawing programs a handler may run (text, erase, char, lines, eraserect, skip, clear at any coordinates, negative and beyond the window) the only terminal cells a flush changes lie in the damage and belong, in the composition, to the window that drew them, at the window-relative position (C02_confined, C02_programs); stronger, every cell shows exactly what its owner's program alone leaves there, line segments included (C02_exact, C02_lines); every rectangle handed to a handler lies within its window (C02_rect_in_bounds); rectangles handed to one window in one flush are pairwise disjoint, unconditionally, from the C05 invariant of the damage set (C02_rects_disjoint, C02_damage_disjoint). Tie: scripted hostile handlers (incl. line drawing in equivalent pens, savepen/restore brackets) on the mock terminal and a harness-owned grid terminal; grid before/after each flush, tree and all handed rectangles compared.",
@@ -153,11 +153,11 @@ CLAIMED = {
    design="6/C01-C02", technique="Coq proof over arbitrary drawing programs via clip/mask/translation bookkeeping of the abstract render buffer; extracted `owner` as oracle; differential check"),
  "C14": dict(
    text="Machine-checked proof (Coq 8.16, no axioms) over the model of window.c's input routing: for every tree (overlaps, nesting, hidden subtrees, stealing windows, focus placement), every key / mouse event at every cell and every claim pattern, the windows offered the event are exactly the prefix of key_order / mouse_order up to the first claimer, with positions relative to the receiver (C14_key, C14_mouse, C14_mouse_relative, C14_term_*); hidden windows and their descendants never receive input (C14_hidden_never); synthesised drag events are well-bracketed w.r.t. the press (C14_drag); a handler closing or destroying ITSELF or ANY OTHER non-root window during routing neither crashes nor derails delivery to the rest (C14_mutation_no_crash, C14_mutation_rest: multiset for keys, order for mouse; C14_mutation_destroy, C14_mutation_term_mouse). Tie: delivery logs over exhaustive cell x claimer sweeps and random trees with scripted close/destroy inside handlers under ASan.",
-   note='Holds for the repaired code (fix: abd7bb4, 36efd83, 155335a). The mutation theorems assume one armed mutation per event whose target is a non-root window present in the tree. Trusted: Coq kernel; model; extraction.',
+   note='Holds for the repaired code (fix: abd7bb4, 36efd83, 1edb315). The mutation theorems assume one armed mutation per event whose target is a non-root window present in the tree. Trusted: Coq kernel; model; extraction.',
    design="6/C14", technique="Coq proof over a fuel-based pointer-following model against structural order specifications; extracted spec as oracle; differential check with handlers mutating the tree"),
  "C15": dict(
    text="Machine-checked proof (Coq 8.16, no axioms) over the model of window.c's focus and cursor code: after a flush (any restack queue) the terminal cursor is exactly where cursor_spec puts it - end of the focus chain focused, chain visible, cursor enabled, cell inside every ancestor and owned by that window in the composition - or hidden (C15_restore, C15_after_flush, C15_flush); every operation that can change cursor_spec leaves a restore request or damage (C15_requested), hence for EVERY history of take-focus, cursor position/visibility/shape changes, show/hide, restack, move, close and expose the cursor is right after each flush (C15_history, C15_history_flushed); take_focus emits every OUT before every IN and exactly the events the focus specification demands, parents that asked are told of both (C15_focus_order, C15_focus_events). Tie: cursor state after every flush and focus event logs over exhaustive <=3-op sequences on 3 base trees + random histories, on the mock terminal and a harness grid driver.",
-   note='Holds for the repaired code (fix: 5f3c28f, b19a835, f73837d, 19a3650; pinned refuted by C15_refuted_19). The history alphabet excludes scrolls and terminal resize (they do not touch focus state; covered by the correspondence). Trusted: Coq kernel; model; extraction.',
+   note='Holds for the repaired code (fix: 5f3c28f, b19a835, f73837d, 27ae864; pinned refuted by C15_refuted_19). The history alphabet excludes scrolls and terminal resize (they do not touch focus state; covered by the correspondence). Trusted: Coq kernel; model; extraction.',
    design="6/C15", technique="Coq proof (structural recursion over the tree, path induction) against cursor_spec/focus_spec; extracted boolean spec as oracle; differential check"),
  "C03": dict(
    text="Machine-checked proof (Coq 8.16, no axioms) that the model of src/renderbuffer.c's drawing operations REFINES a per-cell last-writer-wins specification "
